@@ -484,6 +484,9 @@ impl History {
                     match self.occupant(*l) {
                         Some(target) => {
                             let batch = self.s4.take_shadow_in(target);
+                            if std::env::var("VERIF_DEBUG_MODEL").is_ok() {
+                                eprintln!("    batch of link {target}: {batch:?}");
+                            }
                             self.model.ev_device_data(target, &batch);
                             if target != *l {
                                 self.corner("stale-event-delivered");
